@@ -199,7 +199,47 @@ async def F12():
     return (any(v != 1 for v in out.values()), f"end-of-source detections (itertools / zip: 1 each): {out}")
 
 
-ALL = [F1, F2, F3, F4, F5, F6, F7, F8, F9, F10, F11, F12]
+async def F13():
+    def key(x):
+        if x == 2:
+            raise RuntimeError("key")
+        return x
+    src = Src([1, 2, 3])
+    try:
+        async for _k, group in a.groupby(src, key):
+            async for _ in group:
+                pass
+    except RuntimeError:
+        pass
+    src2 = Src([1, 2, 3], fail_at=1)
+    try:
+        async for _k, _g in a.groupby(src2):
+            pass
+    except RuntimeError:
+        pass
+    return (src.closed != 1 or src2.closed != 1, f"aclose calls after groupby raised: key failed {src.closed}, source failed {src2.closed}")
+
+
+async def F14():
+    s1, s2 = Src([1, 2], fail_at=1), Src([3])
+    try:
+        async for _ in a.chain(s1, s2):
+            pass
+    except RuntimeError:
+        pass
+    return (s2.closed != 1, f"chain(s1, s2) after s1 raised: s1.closed={s1.closed}, s2.closed={s2.closed}")
+
+
+async def F15():
+    src = Src([1, 2])
+    first, second = a.tee(src, 2)
+    await first.aclose()
+    async for _ in second:
+        pass
+    return (src.closed != 1, f"tee: child 0 closed unstarted, child 1 exhausted: source closed {src.closed} times")
+
+
+ALL = [F1, F2, F3, F4, F5, F6, F7, F8, F9, F10, F11, F12, F13, F14, F15]
 
 
 def main():
